@@ -720,6 +720,35 @@ func checkC17(t *testing.T, sc *Scenario) *Verdict {
 			if r.Outcome != OutOK {
 				return fail(r, "config-read-fault")
 			}
+			if fault == "eio" || fault == "eacces" {
+				// the configuration file exists but cannot be read: "ignored" means the server behaves
+				// as if it were absent, i.e. the client's settings apply in full (unless it refuses
+				// to initialise at all)
+				ob, _ := json.Marshal(map[string]interface{}{"rootUri": "file://" + Root, "rootPath": Root, "initializationOptions": AllOn()})
+				fa := run(&Scenario{Files: withJSON(sc.Files, c.jsonFile()), NoInit: true, Ops: []Op{
+					{Kind: "faults", Faults: []simfs.Fault{{Op: "ReadFile", Suffix: "luahelper.json", Nth: 1, Kind: fault}}},
+					{Kind: "req", Method: "initialize", Params: ob},
+					{Kind: "notify", Method: "initialized", Params: json.RawMessage(`{}`)},
+					{Kind: "settle"}}})
+				if fa.Outcome != OutOK {
+					return fail(fa, "config-read-fault (client settings)")
+				}
+				refused := false
+				for _, a := range fa.Answers {
+					if a.Method == "initialize" && a.Err != "" {
+						refused = true
+					}
+				}
+				if !refused {
+					nb := run(&Scenario{Files: sc.Files, InitOpts: AllOn()})
+					if nb.Outcome != OutOK {
+						return fail(nb, "no-config reference")
+					}
+					if vv := cmp("c17-unreadable-config-not-ignored", "unreadable luahelper.json vs no luahelper.json", fa.View, nb.View, ""); vv != nil {
+						return vv
+					}
+				}
+			}
 			v.Shape = "json-fault " + fault
 			v.NonTrivial = r.FsFired["ReadFile."+fault] > 0
 			return v
